@@ -234,7 +234,8 @@ def run_case(case, seed):
             bad("C12/typeset/not-rejected", f"a + b accepted although b holds {other} instead of {kp}")
         except (AssertionError, KeyError, ValueError, TypeError):
             pass
-        if (some_a == ren) is not False:
+        ren_same = geom.MultiImage({(other if q == kp else q): jnp.asarray(A[q]) for q in keys}, D, flags)
+        if (some_a == ren) is not False or (some_a == ren_same) is not False or (ren_same == some_a) is not False:
             bad("C12/typeset/eq", "multi-images whose types differ only in parity compare equal")
     return {
         "violations": v,
